@@ -10,9 +10,10 @@ PROPS = {
     },
     "C18": {
         "families": [fam("c18", 2500, 40000)],
-        "defects": ["D11"],
+        "defects": ["D11", "D16"],
         "rule": "lines from the hosts grammar (IPv4/IPv6/mapped/zoned/invalid addresses, 1..8 names, space/tab runs, comments with and "
-                "without a preceding blank incl. tab, trailing blanks) plus byte mutations, through NewHostRule, NewRule and a real "
+                "without a preceding blank incl. tab, comment texts with cosmetic markers inside -- `x$$y`, `x$@$y`, ` $$`, `#@#` after a blank --, "
+                "trailing blanks) plus byte mutations, through NewHostRule, NewRule and a real "
                 "DNSEngine (every listed name, near misses and an unlisted name are queried); non-trivial = a host rule was produced; "
                 "distinct by hash of the op input",
     },
